@@ -1,24 +1,20 @@
-"""Per-property configuration of bin/check."""
+"""Per-property configuration: one JSON file per property under /verif/props (check
+configuration and MANIFEST texts together, so that properties can be worked on
+independently)."""
+import glob, json, os
 
-KERNEL = "Coq 8.16.1 kernel (coqc, full .vo build); vm_compute for refutation witnesses and non-vacuity examples; no native_compute"
+ROOT = os.path.dirname(os.path.dirname(os.path.abspath(__file__)))
+
+KERNEL = "Coq 8.16.1 kernel (coqc, full .vo build); vm_compute for refutation witnesses, table theorems and non-vacuity examples; no native_compute"
 EXTRACT = "extraction: ExtrOcamlBasic only (bool/option/unit/list/prod/sumbool/comparison mapped to OCaml), no Extract Constant; N/Z/positive/nat stay Coq datatypes; ocaml/drvlib.ml (~110 lines); cross-checked per run against in-Coq vm_compute"
 HARNESS = "correspondence harness harness/hx (generators, shrinker) and the per-property abstraction between API observations and the integer encoding"
 
-PROPS = {
-    "C13": {
-        "runner": "c13",
-        "gen": ["consts"],
-        "machine": "C13",
-        "model_file": "Model/Sender.v",
-        "model_targets": ["Extract/Machines.vo"],
-        "proof_targets": ["Properties/C13.vo"],
-        "level": "proof",
-        "rule": "histories of Request/Subscribe/Bind/Unsubscribe/Unbind over 4 destinations x 8 commands, responses (matching, unknown, already answered, nil), notifications, reply/result/write and DatagramForMsgCounter lookups; four generators (mixed, >20 unanswered requests, >100 notifications with lookups at the end, notifications interleaved with lookups); a history is non-trivial when it has at least 2 operations, distinct by the hash of its operation list",
-        "trusted_base": [KERNEL, EXTRACT, HARNESS,
-                         "translator harness/cmd/gen (consts): reads the request-cache limit and the LRU size from spine/send.go",
-                         "modelled not verified: sha256/JSON injectivity of the request hash (hash = (destination, command) id); golanguzb70/lrucache re-modelled (Get/Put) and compared; atomic.AddUint64 as one atomic step; counter wrap-around at 2^64 out of scope"],
-        "assumptions": ["each Sender method body between lock acquisition and release is atomic (muxRequestSend, muxNotifyCache); the concurrent clause is supported by the schedule theorem plus a goroutine run in the thorough tier",
-                        "known finding lru-get-refreshes-recency: retrieval clause excused after a lookup followed by a notification"],
-        "explanation": "Theorems over Model/Sender.v: every trace is accepted by the extracted monitor Spec/SenderSpec.v (unique, increasing counters; sound de-duplication; retrievable notifications within scope); bounded request memory; refutation witness for the unscoped retrieval clause. The same monitor judges the implementation's traces; implementation and model are compared step by step.",
-    },
-}
+
+def load():
+    out = {}
+    for f in sorted(glob.glob(os.path.join(ROOT, "props", "C*.json"))):
+        out[os.path.basename(f)[:-5]] = json.load(open(f))
+    return out
+
+
+PROPS = load()
